@@ -8,16 +8,16 @@ def cmd(pid, tier):
 
 CHECKS = {
  "C06": dict(level="exploration", ref="DESIGN.md section 4 C06", technique="deterministic simulation: seeded whole-run search over schedule options with bounded liveness delivered through the model seam; history oracle",
-   text="Seeded search over whole simulated SMC runs (real SMCSampler loop, stub kernel/proposal/model) across the schedule-option swarm and targets incl. extremely peaked ones; fixed schedules n_steps=1..100 enumerated in the thorough tier; every run is judged on its recorded temperatures (strictly increasing, in (0,1], ends at exactly 1.0 or at the cap, exact n, min_step honoured), on exceptions, and on bounded-step progress. Sampling, not proof.",
+   text="Seeded search over whole simulated SMC runs (real SMCSampler loop, stub kernel/proposal/model) across the schedule-option swarm and targets incl. extremely peaked ones; fixed schedules n_steps=1..100 enumerated in the thorough tier; a fifth of the adaptive runs go through SMCSampler.sample directly with beta_tolerance from 1e-10 to 0.4; runs that stop early are continued with a CHANGED schedule; every run is judged on its recorded temperatures (strictly increasing, in (0,1], ends at exactly 1.0 or at the cap, exact n, min_step honoured), on exceptions, and on bounded-step progress. Sampling, not proof.",
    note="Kernel, proposal and model are simulator stubs; schedule code, weights and ESS are the repository's. Liveness is 'progress in every iteration within a step budget', judged from the history."),
  "C07": dict(level="exploration", ref="DESIGN.md section 4 C07", technique="deterministic simulation: history check of every adaptive step against an executable reference model (own ESS/incremental weights/root of the ESS curve)",
    text="For every adaptive iteration of every simulated run the two-sided bisection post-condition is recomputed by the simulator's own model from the population the step was computed on; floor-forced steps are exempted by the model's floor arithmetic and counted.",
    note="Populations are those whole runs reach (incl. peaked targets where the ESS curve crosses the target inside the bracket), not arbitrary vectors. float32 steps whose log-weights exceed float32 resolution are skipped and counted."),
  "C11": dict(level="fault_enumeration", ref="DESIGN.md section 4 C11", technique="deterministic simulation with fault injection: crash at every likelihood/prior call of a seeded run, restart from durable state only through 4 resume routes, twin-run bit-equality against the uninterrupted reference",
-   text="Per scenario the crash points (every likelihood call and every prior call of the reference run) are enumerated completely; crash points are grouped by the durable state they leave and each distinct state is resumed through bytes / dict / file path / Aspire.resume_from_file in a fresh process with only durable state; the finished run must equal the reference bit for bit (schedule, populations, samples, evidence, every history series). Scenarios are sampled (swarm), crash points within a scenario are exhaustive.",
+   text="Per scenario the crash points (every likelihood call and every prior call of the reference run) are enumerated completely; crash points are grouped by the durable state they leave and each distinct state is resumed through bytes / dict (pickled snapshot) / LIVE dict (the object the callback received or sampler.last_checkpoint_state, after an exception that does not kill the process) / file path / Aspire.resume_from_file in a fresh process with only durable state; the finished run must equal the reference bit for bit (schedule, populations, samples, evidence, every history series). Scenarios are sampled (swarm), crash points within a scenario are exhaustive.",
    note="Stub kernel/proposal/model; emcee_smc excluded (its random source is not user-supplied); faults inside an HDF5 call are not injected."),
  "C12": dict(level="fault_enumeration", ref="DESIGN.md section 4 C12", technique="deterministic simulation with fault injection: storage seam on HDF5 close + crash at every likelihood/prior call; byte-exact file-vs-acknowledged-payload oracle and cadence model",
-   text="Fault-free: the file is re-read at every likelihood call and must equal the last acknowledged payload byte for byte; every durable write is observed at the h5py close seam and the write iterations must equal the cadence arithmetic plus the forced final write. Faulted: a crash at every likelihood/prior call; the file must hold exactly the payload acknowledged before that call, with config and flow loadable through Aspire.resume_from_file. Growing and shrinking payloads, including a larger previous run in the same file.",
+   text="Fault-free: the file is re-read at every likelihood call and must equal the last acknowledged payload byte for byte; every durable write is observed at the h5py close seam and the write iterations must equal the cadence arithmetic plus the forced final write. Faulted: a crash at every likelihood/prior call; the file must hold exactly the payload acknowledged before that call, with config and flow loadable through Aspire.resume_from_file. Growing and shrinking payloads, including a larger previous run in the same file; a second crash inside every resumed run (also continued with another cadence, with the absolute cadence arithmetic checked); a sample of real SIGKILLs of a child interpreter validates the crash model.",
    note="Crash = exception at a model call (file closed at those instants); torn writes inside h5py are not injected. Cross-process payload comparison is semantic because pickled torch tensors are not byte-stable across processes; the in-process file-vs-acknowledged comparison is byte-exact."),
  "C18": dict(level="fault_enumeration", ref="DESIGN.md section 4 C18", technique="deterministic simulation with fault injection: history check of reference and crash-resumed runs against an executable reference model",
    text="The history of every fault-free run and of every run resumed after an enumerated crash is checked: one entry per iteration in every series, iterations+1 populations with the right temperatures, none repeated, and each recorded ESS / target ESS / ratio equal to the model's recomputation from neighbouring stored populations.",
@@ -43,7 +43,7 @@ CHECKS.update({
 
 CHECKS.update({
  "C15": dict(level="exploration", ref="DESIGN.md section 4 C15", technique="deterministic simulation: namespace x dtype swarm over whole runs incl. crash/restore; precision/namespace invariants at the model seam and on every recorded population; twin run with/without xp=",
-   text="PARTIAL claim: only what whole simulated runs observe. Every array handed to the user's callables and every population recorded, checkpointed, restored after a crash (bytes and resume_from_file routes) and returned must have the requested float width and namespace; sample_posterior(xp=T) for all 9 ordered namespace pairs must succeed, keep values/fields/width; real zuko and flowjax proposal outputs must be consumable by importance and SMC sampling in every sample namespace (native and string dtype spellings).",
+   text="PARTIAL claim: only what whole simulated runs observe. Every array handed to the user's callables and every population recorded, checkpointed, restored after a crash (bytes and resume_from_file routes; also when a FINISHED run is resumed; also the per-iteration diagnostics; also initial populations assembled from several proposal batches) and returned must have the requested float width and namespace; sample_posterior(xp=T) for all 9 ordered namespace pairs must succeed, keep values/fields/width; real zuko and flowjax proposal outputs must be consumable by importance and SMC sampling in every sample namespace (native and string dtype spellings).",
    note="The direct-conversion grid over all sample classes and the dtype-spelling helpers is a pure function table and is not explored by this family (DESIGN.md section 5/9). CPU only; stub kernels."),
 })
 
@@ -53,17 +53,17 @@ CHECKS.update({
    text="For every point any kernel evaluates in whole runs (chain points and simulator probes) the returned value is compared with (1-beta) log q(x) + beta (log L(x)+log pi(x)) + log|det dx/dz| where x is what reached the user's model for that very call, q/L/pi are recomputed by the simulator and pre-image and Jacobian come from its own closed-form composite; zero prior must give exactly -inf, NaN tempered values -inf in SMC; in-place mutation of the kernel's array is detected. minipcn SMC, emcee SMC, minipcn MCMC, emcee MCMC x identity/periodic/logit/probit/affine/both x numpy/torch/jax x dtypes.",
    note="Stub kernels; blackjax.py's duplicate of the target is not run. Points where the bounded map saturates in floating point are counted, not judged. torch float64 is judged at 1e-6 (parts of log|J| are built in float32 by the transforms; observation in DESIGN.md section 7)."),
  "C09": dict(level="exploration", ref="DESIGN.md section 4 C09", technique="deterministic simulation: invariant at the RNG seam (the simulator's recording Generator sees the probability vector and decides the indices), adversarial index answers through the public resample on every stored population",
-   text="At every rng.choice call of whole runs the probability vector must equal the model's normalised incremental weights of the current stored population for the temperatures actually used (uniform / n_final_samples for the final enlargement), and the kernel must start from rows idx of that population; SMCSamples.resample is additionally driven with adversarial index vectors on every stored population and every field of every output row compared with its source row.",
+   text="At every rng.choice call of whole runs the probability vector must equal the model's normalised incremental weights of the current stored population for the temperatures actually used (uniform / n_final_samples for the final enlargement), the number of resampling calls must match the iterations, and the kernel must start from rows idx of that population; SMCSamples.resample is additionally driven with adversarial index vectors on every stored population and every field of every output row compared with its source row.",
    note="Stub kernel/proposal/model; all three namespaces; float32 steps whose log-weights exceed float32 resolution are skipped and counted."),
 })
 
 
 CHECKS.update({
  "C16": dict(level="exploration", engine="operation-engine", ref="DESIGN.md section 4 C16", technique="deterministic simulation, operation engine: seeded Hypothesis stateful machine over sample-set operations checked step by step against a plain-array reference model (pickle hop = checkpoint wire format)",
-   text="Seeded operation sequences (select by slice/mask/index array, partition+concatenate, pickle, to_dict/from_dict flat/nested; results re-enter the pool so operations compose) over all three sample classes x namespaces x dtypes x field subsets, each result compared field by field with a dict-of-numpy-arrays model; Hypothesis shrinks failures and the recorded op list is the replay file. Reference-model half of the technique with an empty fault space (stated).",
+   text="Seeded operation sequences (select by slice/mask/index array/Python list, partition+concatenate, concatenation of sets that differ in optional fields, pickle, to_dict/from_dict flat/nested; results re-enter the pool so operations compose) over all three sample classes x namespaces x dtypes x field subsets, each result compared field by field with a dict-of-numpy-arrays model; Hypothesis shrinks failures and the recorded op list is the replay file. Reference-model half of the technique with an empty fault space (stated).",
    note="Integer indexing is not generated; after concatenate only rows and weights are compared (no more than the statement promises)."),
  "C19": dict(level="fault_enumeration", engine="operation-engine", ref="DESIGN.md section 4 C19", technique="deterministic simulation with fault injection, operation engine: seeded Hypothesis stateful machine over nested context managers with an exception injected at every body position, user-model errors and FakePool.map failures; identity oracle at every exit",
-   text="Nestings of enable_pool and auto_checkpoint to depth 4 on a plain or resume_from_file-primed instance, bodies with sampling calls, and an exception at each body position / inside the likelihood / inside pool.map, propagated through every enclosing context like a real with-statement; at each exit the callables must be the identical objects as on entry of that level, defaults equal or absent as on entry, close/join exactly once iff close_pool, exception unchanged. All (context kind x exit path x depth<=4 x primed) combinations are reached in the quick tier.",
+   text="Nestings of enable_pool and auto_checkpoint to depth 4 on a plain or resume_from_file-primed instance, bodies with sampling calls, and an exception (an Exception subclass or a BaseException such as Ctrl-C) at each body position / inside the likelihood / inside pool.map, propagated through every enclosing context like a real with-statement; at each exit the callables must be the identical objects as on entry of that level, defaults equal or absent as on entry, close/join exactly once iff close_pool, exception unchanged. All (context kind x exit path x depth<=4 x primed) combinations are reached in the quick tier.",
    note="FakePool instead of multiprocessing.Pool; pool=None not generated."),
 })
 
@@ -87,7 +87,7 @@ CHECKS.update({
    text="Each cell (target x sampler x preconditioning x proposal tightness x namespace) is run as R seeded replicates of the whole pipeline (fit, sample_posterior) with the stub kernel and the exact-density stub proposal; the replicate mean of Z_hat/Z and the pooled posterior mean/variance (circular moments on periodic dimensions) must match the closed forms within 6 standard errors plus a stated finite-N allowance (zero for the evidence in exact cells: importance sampling and fixed-schedule SMC with a population-independent kernel). Bounds were frozen after a multi-seed calibration on the repaired tree.",
    note="Stub kernels: decided for aspire's side of the kernel contract. Small biases below the allowances are not detectable. One known finding (SMC evidence = Z/A over a leaky proposal) is listed in known_findings.json."),
  "C03": dict(level="exploration", ref="DESIGN.md section 4 C03", technique="deterministic simulation: invariants at the proposal seam on real zuko/flowjax flows incl. restart (save/load), normalisation decided by a seeded importance-sampling ensemble with L == 1 and a closed-form normalised prior",
-   text="For real ZukoFlow / FlowJax objects with the repo's FlowTransform (logit/probit/off x affine on/off x float32/float64 x untrained/trained): log_prob(x) == log_q on every drawn batch, draws inside declared bounds, the flow reloaded from HDF5 reproduces log_prob on the recorded draws, and E[Z_hat] = 1 over seeded replicates of Aspire importance sampling against a normalised lighter-tailed prior (any missing or sign-flipped Jacobian term shifts log Z_hat by O(1)).",
+   text="For real ZukoFlow / FlowJax objects with the repo's FlowTransform (logit/probit/off x affine on/off x float32/float64 x untrained/trained x fitted once/refitted; parameter names not in alphabetical order): log_prob(x) == log_q on every drawn batch, draws inside declared bounds, the flow reloaded from HDF5 reproduces log_prob on the recorded draws, and E[Z_hat] = 1 over seeded replicates of Aspire importance sampling against a normalised lighter-tailed prior (any missing or sign-flipped Jacobian term shifts log Z_hat by O(1)).",
    note="Normalisation errors below a few percent are not detectable by this oracle (a quadrature would be sharper but is pure numerical analysis, outside this family). torch float64 judged at 1e-6 (observation in DESIGN.md section 7)."),
 })
 
